@@ -16,6 +16,7 @@ accessor report something that does not depend on the configured value.
             and no duration is stored in a wire field narrower than its value (C13 R-CAST instances of mdhd/tkhd/mvhd).
 NOT decided: value equality (e.g. lossy packing of AAC object types >= 32 is C05's routing check), the one-tick rounding bound.
 """
+import re
 import c09
 from callgraph import callgraph
 from facts import short
@@ -171,6 +172,19 @@ def forward_sinks(fx, cg, clo, adt_short, field):
                     sinks.add((short(last["adt"]), last["f"]))
                 changed |= add(t, d["l"], {fpath(d) + r for r in allres})
                 p = callee_path(tt["callee"])
+                if p not in fx.fns and (tt["callee"].get("path") or "").endswith("Into::into"):
+                    # `x.into()` runs the crate's `From<X> for T` impl: T is the second type argument of `<X as Into<T>>`
+                    m_into = re.search(r" as core::convert::Into<(.*)>>::into$", tt["callee"].get("full") or "")
+                    if m_into:
+                        tgt_ty = m_into.group(1)
+                        for g_id, g_ in fx.fns.items():
+                            im_ = g_.get("impl") or {}
+                            if g_["name"] == "from" and (im_.get("trait_path") or "").endswith("convert::From") and im_.get("self_ty") == tgt_ty:
+                                p = g_id
+                                if p not in taints and body_of(g_) is not None:
+                                    taints[p] = {}
+                                    clo = set(clo) | {p}
+                                break
                 if p in fx.fns and p in clo:
                     for i, r in enumerate(argres):
                         if r and add(taints[p], i + 1, r):
